@@ -314,7 +314,14 @@ func (h *HttpServer) handleStreamInit(w http.ResponseWriter, r *http.Request) {
 			h.writeHttpError(w, http.StatusInternalServerError, err, nil)
 			return
 		}
-		callToken, err := h.packCallToken(callID, outputSchema, auth, streamID)
+		// A dynamic exchange declares its input schema only here, in the
+		// StreamResult; carry it in the call token so continuations can cast
+		// to it. Static exchanges have it at registration (info.InputSchema).
+		var dynInputSchema *arrow.Schema
+		if info.InputSchema == nil {
+			dynInputSchema = streamResult.InputSchema
+		}
+		callToken, err := h.packCallTokenWithInput(callID, outputSchema, dynInputSchema, auth, streamID)
 		if err != nil {
 			h.writeHttpError(w, http.StatusInternalServerError, err, nil)
 			return
@@ -499,6 +506,29 @@ func (h *HttpServer) handleStreamExchange(w http.ResponseWriter, r *http.Request
 	if err != nil {
 		h.writeHttpError(w, http.StatusBadRequest, err, nil)
 		return
+	}
+
+	// Dynamic exchange: the input schema was chosen at /init and travels in
+	// the call token. Cast to it exactly as the static path above (and the
+	// pipe transports) do, so a castable-but-unequal input reaches the handler
+	// in the declared type and an uncastable one is refused.
+	if _, isProducerState := tokenData.State.(ProducerState); !cancelled && !isProducerState &&
+		info.InputSchema == nil && len(call.InputSchemaIPC) > 0 {
+		dynInputSchema, schemaErr := deserializeSchema(call.InputSchemaIPC)
+		if schemaErr != nil {
+			h.writeHttpError(w, http.StatusBadRequest,
+				&RpcError{Type: "RuntimeError", Message: fmt.Sprintf("failed to recover input schema: %v", schemaErr)}, nil)
+			return
+		}
+		if !inputBatch.Schema().Equal(dynInputSchema) {
+			castBatch, castErr := castRecordBatch(inputBatch, dynInputSchema)
+			if castErr != nil {
+				h.writeHttpError(w, http.StatusBadRequest, castErr, nil)
+				return
+			}
+			defer castBatch.Release()
+			inputBatch = castBatch
+		}
 	}
 
 	// Rehydrate non-serializable fields if a callback is registered
